@@ -35,6 +35,10 @@ CLAIMS = {
   "Deductive, over the view names/tags (dict models): SymbolTable.add, remove, swap, rename_symbol, next_available_name and lookup are verified on their real bodies: the representation invariant 'every key is the lower-cased name of its symbol' (names unique case-insensitively) is preserved; each raises exactly under its conditions ('iff') and then leaves keys, names and tags unchanged; a dry-run rename returns normally exactly when the real rename is accepted; next_available_name's result is, lower-cased, in neither this table, the enclosing scopes (unless shadowing) nor the other table; lookup returns the innermost entry. merge and its helpers are covered only by a bounded run-time contract on the real code (labelled bounded). Known finding (open): a rejected merge has already specialised unresolved symbols.",
   "Assumed: get_symbols()/get_tags() merged scope view (attempted proof withdrawn: two obligations undecided), parent_symbol_table, CodeBlock name lists, Symbol interface predicates as ghost booleans, str.lower uninterpreted. NOT proved: merge / check_for_clashes / _add_symbols_from_table / _handle_symbol_clash / new_symbol / deep_copy; termination of the candidate-name loop.",
   TECH + "; bounded run-time contract as stand-in for merge"),
+ "C02": ("proof",
+  "Deductive: the real bodies of FortranWriter.binaryoperation_node and unaryoperation_node are symbolically executed for every operator of the node, every parent kind and operator, either child position and every grandparent (all symbolic; == on nodes an uninterpreted reflexive relation); postcondition from the Fortran 2008 expression grammar (R702-R722): the operation is parenthesised whenever the loosest operator it exposes binds less tightly than its position demands. Holds outside five recorded known classes (each its own obligation, each replayed through the real writer and reader); precedence() and the reversed operator map are executed (closed code) and used as tables. A bounded round trip (all trees of depth <= 2, real writer + real reader) stands in for 'reads back structurally equal'.",
+  "Trusted: the hand-transcribed grammar levels; fparser2 implements the grammar; tagging assumption on operand texts. NOT under contract: literal_node (signed literals -- recorded finding --, kinds/precision), intrinsic/array/structure writers, the reader's handlers.",
+  TECH + "; finite operator domains kept symbolic (enum If-chains), closed tables executed; bounded round trip as stand-in for the reader"),
 }
 
 NA = {
